@@ -223,8 +223,19 @@ def rule_sites(ctx):
             ctx.anchor_missing(rid, path)
             continue
         ctx.seen(f)
+        # the question may have been moved into a private helper of the same crate (one level): count the helper's questions once per
+        # call site.  (What the helper is told by its caller - e.g. which flag means "still loading" - is then not decided here.)
+        delegated = 0
+        if cnt < n:
+            for b_, t_ in f.calls():
+                c_ = callee(t_)
+                g_ = prog.fn(c_.get("res", c_["fn"])) if c_ else None
+                if g_ is not None and g_.crate == f.crate and g_.path in found and g_.path not in SITES and len(g_.blocks) <= 40:
+                    delegated += len(found[g_.path][1])
         if cnt >= n and all(t[1] is not None for _, v in hit for t in v[1]):
             ctx.ok(rid, "asks:%s" % path, "%d end-of-data question(s) (%s), each controlling a branch" % (cnt, what), nontrivial=True, fn=f)
+        elif cnt + delegated >= n:
+            ctx.ok(rid, "asks:%s" % path, "%d end-of-data question(s) asked directly, %d through a private helper (%s)" % (cnt, delegated, what), fn=f)
         else:
             ctx.bad(rid, "%s|eof-question-missing" % path,
                     "%s asks unexpected_eof() %d time(s), %d reviewed (%s): an end-of-data error of that step now surfaces as a hard error "
@@ -255,7 +266,7 @@ def rule_sites(ctx):
                     gd = Defs(g)
                 l = op_local(t[2][0])
                 ap = _ap(g, gd, l) if l is not None else None
-                if ap and ap[1] and ap[1][-1] == "has_error" and len(g.blocks) <= 6 and not g.path.startswith("jxl_frame::Frame::try_parse"):
+                if ap and ap[1] and ap[1][-1] == "has_error" and len(g.blocks) <= 40 and not g.path.startswith("jxl_frame::Frame::try_parse"):
                     setters.add(g.path)
     for path in ("jxl_frame::Frame::try_parse_lf_global", "jxl_frame::Frame::try_parse_lf_group", "jxl_frame::Frame::try_parse_hf_global"):
         if path not in found:
